@@ -8,4 +8,14 @@ export GOFLAGS=-mod=mod GOPROXY=off GOSUMDB=off GOTOOLCHAIN=local
 if [ ! -x bin/vcheck ] || [ -n "$(find engine -name '*.go' -newer bin/vcheck 2>/dev/null | head -1)" ]; then
   (cd engine && go build -o /verif/bin/vcheck ./cmd/vcheck) || { echo "INCONCLUSIVE property=$1 reason=engine build failed"; exit 2; }
 fi
-exec ./bin/vcheck run "$1" "${2:-quick}"
+# a check only reads /repo: its module files must come out as they went in (with -mod=mod a
+# harness importing a module that /repo requires only indirectly would make go rewrite go.mod)
+before=$(cat /repo/go.mod /repo/go.sum 2>/dev/null | cksum)
+./bin/vcheck run "$1" "${2:-quick}"
+code=$?
+after=$(cat /repo/go.mod /repo/go.sum 2>/dev/null | cksum)
+if [ "$before" != "$after" ]; then
+  echo "INCONCLUSIVE property=$1 reason=the run modified /repo/go.mod or go.sum (a harness import is not a direct requirement of the repository)"
+  exit 2
+fi
+exit $code
